@@ -37,7 +37,7 @@ func child(i, n int) {
 	var ops int64
 	var mism []string
 	var mu sync.Mutex
-	scs := append(scen.Pairs(), scen.Triples()...)
+	scs := append(append(scen.Pairs(), scen.Triples()...), scen.QueryTriples()...)
 	done := 0
 	for k, sc := range scs {
 		if k%n != i {
